@@ -1,4 +1,133 @@
-/- C04 property theorems (in progress) -/
-import WzVerif.Model.RoutingRoundtrip
+/-
+C04 — URL building and matching are mutually inverse.
+
+Model: converter `to_url` / `to_python`, `quote` with the safe sets found in the source,
+`Rule.build` (`_compile_builder` with defaults folded), `suitable_for`, `build_compare_key` order,
+`MapAdapter.build` (relative / external form), `_encode_query_vars` (`Model/RoutingBuild.lean`);
+the server side of a built URL (`Model/RoutingRoundtrip.lean`).
+Floats are modelled as positional decimal text: Python's float <-> text conversion is
+correspondence-tested only (partial).
+Helper lemmas: `Lemmas/RoutingBuild.lean`.
+-/
+import WzVerif.Lemmas.RoutingBuild
+import WzVerif.Lemmas.RoutingRedirect
 namespace Wz.Props.C04
+open Wz Wz.Routing
+
+/-- the `safe=` literals of the three path-quoting call sites and of the query encoder are the model's -/
+theorem quote_safe_sets_match_source :
+    Gen.Routing.safeSites.contains ("routing/converters.py", "to_url", "quote", pathSafe) = true ∧
+    Gen.Routing.safeSites.contains ("routing/rules.py", "_compile_builder", "quote", pathSafe) = true ∧
+    Gen.Routing.safeSites.contains ("urls.py", "_urlencode", "urlencode", querySafe) = true := by
+  decide +kernel
+
+/-- **unquote_quote.** Percent-decoding (what a server does to the request path) undoes the quoting the
+builder applies to literal rule text and to string / path values — for every text: Unicode, spaces,
+`;?#%` and every other reserved character. -/
+theorem unquote_quote (s : Str) : unquote (quote pathSafe s) = s := unquote_quote_pathSafe s
+
+/-! ### `to_python(unquote(to_url(v))) = v` per converter, on its canonical domain -/
+
+/-- **string** (any length options): every text round-trips; the regex sees the text itself. -/
+theorem toPython_toUrl_string (mn : Nat) (mx ln : Option Nat) (s : Str) :
+    ∃ u, toUrl (.string mn mx ln) (.str s) = .ok u ∧ unquote u = s ∧
+      toPython (.string mn mx ln) (unquote u) = some (.str s) :=
+  ⟨quote pathSafe s, rfl, unquote_quote_pathSafe s, by simp [toPython, unquote_quote_pathSafe]⟩
+
+/-- **path**: every text round-trips (multi-segment paths included). -/
+theorem toPython_toUrl_path (s : Str) :
+    ∃ u, toUrl .path (.str s) = .ok u ∧ unquote u = s ∧ toPython .path (unquote u) = some (.str s) :=
+  ⟨quote pathSafe s, rfl, unquote_quote_pathSafe s, by simp [toPython, unquote_quote_pathSafe]⟩
+
+/-- **any**: an item round-trips provided it contains no `%` (`AnyConverter.to_url` does not quote:
+finding F04a is the complement together with `?` / `#`, which cut the path short). -/
+theorem toPython_toUrl_any_partial (items : List Str) (s : Str) (hmem : s ∈ items) (hp : '%' ∉ s) :
+    ∃ u, toUrl (.any items) (.str s) = .ok u ∧ unquote u = s ∧ toPython (.any items) (unquote u) = some (.str s) := by
+  refine ⟨s, ?_, unquote_noPercent s hp, by simp [toPython, unquote_noPercent s hp]⟩
+  simp [toUrl, hmem]
+
+example : "a b".toList ∈ ["a b".toList, "x".toList] ∧ '%' ∉ "a b".toList := by decide
+
+/-- **F04a (negation witness).** Without the restriction the law fails on the unchanged code: the item
+`%41` is emitted as is and a server decodes it to `A`. -/
+theorem toPython_toUrl_any_full_false :
+    ¬ (∀ (items : List Str) (s : Str), s ∈ items →
+        ∃ u, toUrl (.any items) (.str s) = .ok u ∧ toPython (.any items) (unquote u) = some (.str s)) := by
+  intro H
+  obtain ⟨u, hu, hp⟩ := H ["%41".toList] "%41".toList (by simp)
+  have hu' : u = "%41".toList := by
+    have : toUrl (.any ["%41".toList]) (.str "%41".toList) = .ok "%41".toList := by simp [toUrl]
+    rw [this] at hu; cases hu; rfl
+  subst hu'
+  have : toPython (.any ["%41".toList]) (unquote "%41".toList) = some (.str "A".toList) := by decide +kernel
+  rw [this] at hp
+  cases hp
+
+/-- **uuid**: canonical (lower-case) UUID text round-trips. -/
+theorem toPython_toUrl_uuid (t : Str) (hlow : t.map lowerHex = t) (hp : '%' ∉ t) :
+    ∃ u, toUrl .uuid (.uuid t) = .ok u ∧ unquote u = t ∧ toPython .uuid (unquote u) = some (.uuid t) :=
+  ⟨t, rfl, unquote_noPercent t hp, by simp [toPython, unquote_noPercent t hp, hlow]⟩
+
+example : "12345678-1234-5678-1234-567812345678".toList.map lowerHex = "12345678-1234-5678-1234-567812345678".toList ∧
+    regexAccepts .uuid "12345678-1234-5678-1234-567812345678".toList = true := by decide +kernel
+
+/-- **int** — signed or not, with or without `fixed_digits` (zero padding), within `min` / `max`:
+`to_python(unquote(to_url(i))) = i`. With `fixed_digits = n` the printed number must fit n characters
+(`to_python` checks the length, sign included). -/
+theorem toPython_toUrl_int (fixed : Nat) (signed : Bool) (mn mx : Option Int) (i : Int)
+    (hfix : fixed = 0 ∨ (toString i).toList.length ≤ fixed)
+    (hmn : ∀ m, mn = some m → m ≤ i) (hmx : ∀ m, mx = some m → i ≤ m) :
+    ∃ u, toUrl (.int fixed signed mn mx) (.int i) = .ok u ∧ toPython (.int fixed signed mn mx) (unquote u) = some (.int i) := by
+  have hb : ∀ (x : Option Value), (if ((match (generalizing := false) mn with | some m => decide (i < m) | none => false) ||
+             (match (generalizing := false) mx with | some m => decide (i > m) | none => false)) = true then none else x) = x := by
+    intro x
+    cases mn with
+    | none =>
+      cases mx with
+      | none => rfl
+      | some m => have := hmx m rfl; simp; intro h; omega
+    | some m0 =>
+      have h0 := hmn m0 rfl
+      cases mx with
+      | none => simp; intro h; omega
+      | some m => have := hmx m rfl; simp; intro h; omega
+  by_cases hf : fixed = 0
+  · subst hf
+    refine ⟨(toString i).toList, by simp [toUrl], ?_⟩
+    rw [unquote_noPercent _ (percent_not_in_toString i)]
+    simp only [toPython, ne_eq, not_true_eq_false, false_and, if_false, intOfText_toString]
+    exact hb _
+  · have hlen : (toString i).toList.length ≤ fixed := by
+      rcases hfix with h | h
+      · exact absurd h hf
+      · exact h
+    refine ⟨zfill fixed (toString i).toList, by simp [toUrl, hf], ?_⟩
+    rw [unquote_noPercent _ (percent_not_in_zfill _ _ (percent_not_in_toString i))]
+    simp only [toPython, ne_eq, hf, not_false_eq_true, true_and, zfill_length fixed _ hlen, not_true_eq_false, if_false,
+      intOfText_zfill fixed _, intOfText_toString]
+    exact hb _
+
+-- non-vacuity: -5 with fixed_digits = 3, signed, bounds -20 .. 50
+example : (toString (-5 : Int)).toList.length ≤ 3 ∧ (-20 : Int) ≤ -5 ∧ (-5 : Int) ≤ 50 := by decide
+
+/-- **float** (partial): positional decimal text in Python's own canonical spelling round-trips; that
+`str(float)` produces that spelling and `float(text)` reads it back is Python's, not modelled. -/
+theorem toPython_toUrl_float_partial (signed : Bool) (t : Str) (hcanon : normFloat (asciiNum t) = t) (hp : '%' ∉ t) :
+    ∃ u, toUrl (.float signed none none) (.float t) = .ok u ∧
+      toPython (.float signed none none) (unquote u) = some (.float t) :=
+  ⟨t, rfl, by simp [toPython, unquote_noPercent t hp, hcanon]⟩
+
+example : normFloat (asciiNum "-12.25".toList) = "-12.25".toList ∧ '%' ∉ "-12.25".toList := by decide +kernel
+
+-- OPEN (P1): match_build — for an InDomain, pairwise non-overlapping map and values accepted by rule r,
+--   matchAdapter (readBuilt (adapterBuild endpoint vals)) = matched r vals
+-- and build_match_fixpoint — build (match (build r vals)) = build r vals.
+-- Proved here: the two value-level halves (`unquote_quote` for literal text and string/path values,
+-- `toPython_toUrl_*` for every converter). Missing: the segment-level argument (the built path splits at
+-- '/' into exactly the rule's parts because converter output of isolating converters contains no '/',
+-- `partMatch` has a unique decomposition for fixed literal prefix / suffix) and the rule-selection
+-- argument (`suitable_for` + `build_compare_key` pick a rule whose URL the matcher maps back to the
+-- same endpoint on non-overlapping maps). Both laws are checked on the real code and on the model by
+-- stream `build-match` (oracle: match(unquote(build)) = (endpoint, values) and build(match(url)) = url).
+
 end Wz.Props.C04
